@@ -121,7 +121,10 @@ def unique_occurrence(pattern, s):
     """True when the circular string s holds exactly one occurrence of the structure:
     exactly one start position matches and the group spans there do not depend on the
     greedy/lazy preference of the runs (i.e. there is only one way to match)."""
-    items, ng = parse(pattern)
+    try:
+        items, ng = parse(pattern)
+    except (KeyError, ValueError, IndexError):
+        return _unique_occurrence_extended(pattern, s)
     n = len(s)
     data = s + s
     hits = []
@@ -136,3 +139,56 @@ def unique_occurrence(pattern, s):
     i, sp = hits[0]
     sp2 = match_at(_toggle(items), ng, data, i, i + n)
     return sp2 == sp
+
+
+# ---------------------------------------------------------------- patterns outside the small language
+
+def _translate(pattern, toggle):
+    """own transcription of a pattern that uses more regex syntax than the model above (look-arounds, non-capturing
+    groups, alternation): IUPAC letters -> classes from util.IUPAC, quantifier preference optionally toggled.
+    Raises ValueError for syntax whose letters are not nucleotides (named groups, escapes, explicit classes)."""
+    if "(?P" in pattern or "\\" in pattern or "[" in pattern or "{" in pattern:
+        raise ValueError("pattern syntax outside the reference models")
+    out = []
+    i = 0
+    while i < len(pattern):
+        c = pattern[i]
+        if c.isalpha():
+            if c not in IUPAC:
+                raise ValueError("letter %r is not a nucleotide code" % c)
+            out.append("[" + "".join(sorted(IUPAC[c])) + "]")
+        elif c in "*+":
+            lazy = i + 1 < len(pattern) and pattern[i + 1] == "?"
+            if lazy:
+                i += 1
+            out.append(c + ("?" if lazy != toggle else ""))
+        elif c in "()?<=!:|":
+            out.append(c)
+        else:
+            raise ValueError("character %r outside the reference models" % c)
+        i += 1
+    return "".join(out)
+
+
+def _unique_occurrence_extended(pattern, s):
+    """same question as unique_occurrence for a pattern with look-arounds / alternation, asked of Python's re on the
+    harness's own transcription, with real circular context: three turns of the text, start positions in the middle one,
+    a match at most one turn long"""
+    import re
+
+    rx = re.compile(_translate(pattern, False))
+    rx2 = re.compile(_translate(pattern, True))
+    n = len(s)
+    t = s * 3
+    hits = []
+    for i in range(n, 2 * n):
+        m = rx.match(t, i, i + n)
+        if m is not None:
+            hits.append((i, m))
+            if len(hits) > 1:
+                return False
+    if len(hits) != 1:
+        return False
+    i, m = hits[0]
+    m2 = rx2.match(t, i, i + n)
+    return m2 is not None and [m2.span(g) for g in range(rx.groups + 1)] == [m.span(g) for g in range(rx.groups + 1)]
